@@ -43,7 +43,8 @@ PARSE_RULE = (
     "sequences of length <= 4 (<= 3 over every two-character escape and two different pairs); E7 grammar-based random "
     "documents with 1-3 random edits; E8 wide objects; E9 aliasing characters; E10 four-character words after \\u; E11 "
     "multi-byte characters at every buffer fill level; E12 ill-formed bytes inside look-ahead windows; E13 byte inputs with a "
-    "multi-byte character (whole / cut short) across byte 65536 in every alignment. Entry-point agreement (flag EP) includes "
+    "multi-byte character (whole / cut short) across byte 65536 in every alignment; E14 arrays of 7..20 items with nested "
+    "containers among the items; E8b every key twice over 40..600 distinct keys. Entry-point agreement (flag EP) includes "
     "sources declaring UTF-16 byte lengths, 1, irregular lengths, 0, 2^8, 2^16, 2^32 and alternately 0 / 1 MiB per character. "
 )
 
